@@ -241,4 +241,205 @@ theorem fieldMask_disjoint (l1 m1 l2 m2 : BitVec 64)
   simp only [fieldMask]
   rcases hdis with hdis | hdis <;> bv_decide (config := { timeout := 120 })
 
+/-! ## The range in mathematical integers (kernel-only arithmetic) -/
+
+theorem sub_toNat (l m : BitVec 64) (h1 : l ≤ m) : (m - l).toNat = m.toNat - l.toNat := by
+  rw [BitVec.le_def] at h1
+  rw [BitVec.toNat_sub]
+  have := m.isLt; have := l.isLt
+  omega
+
+theorem one_shl_toNat (k : BitVec 64) (hk : k.toNat < 64) : (1#64 <<< k).toNat = 2 ^ k.toNat := by
+  rw [BitVec.shiftLeft_eq', BitVec.toNat_shiftLeft, Nat.shiftLeft_eq]
+  simp only [BitVec.toNat_ofNat, Nat.reducePow, Nat.reduceMod, Nat.one_mul]
+  apply Nat.mod_eq_of_lt
+  exact Nat.pow_lt_pow_right (by omega) hk
+
+theorem specMin_toInt (s : Sign) (l m : BitVec 64) (h1 : l ≤ m) (h2 : m < 64) :
+    (specMin s l m).toInt = fieldMin s (fieldWidth l.toNat m.toNat) := by
+  have hd := sub_toNat l m h1
+  have hm : m.toNat < 64 := by rw [BitVec.lt_def] at h2; exact h2
+  cases s
+  · simp only [specMin, fieldMin, fieldWidth, Nat.add_sub_cancel]
+    have hk : (m - l).toNat < 64 := by omega
+    have hx := one_shl_toNat (m - l) hk
+    have hp1 : 1 ≤ 2 ^ (m - l).toNat := Nat.one_le_two_pow
+    have hp2 : 2 ^ (m - l).toNat ≤ 2 ^ 63 := Nat.pow_le_pow_right (by omega) (by omega)
+    rw [BitVec.toInt_eq_toNat_cond, BitVec.toNat_neg, hx, ← hd]
+    have : ((2 : Int) ^ (m - l).toNat) = ((2 ^ (m - l).toNat : Nat) : Int) := by simp
+    rw [this]
+    generalize 2 ^ (m - l).toNat = P at *
+    simp only [Nat.reducePow] at *
+    split <;> omega
+  · simp [specMin, fieldMin]
+
+/-- `max` is the top of the field's range; the one exception is the unsigned 64-bit field,
+reported as `i64::MAX`. -/
+theorem specMax_toInt (s : Sign) (l m : BitVec 64) (h1 : l ≤ m) (h2 : m < 64) :
+    (specMax s l m).toInt =
+      if s = .unsigned ∧ fieldWidth l.toNat m.toNat = 64 then 2 ^ 63 - 1
+      else fieldMax s (fieldWidth l.toNat m.toNat) := by
+  have hd := sub_toNat l m h1
+  have hm : m.toNat < 64 := by rw [BitVec.lt_def] at h2; exact h2
+  have hk : (m - l).toNat < 64 := by omega
+  cases s
+  · simp only [specMax, fieldMax, fieldWidth, Nat.add_sub_cancel, reduceCtorEq, false_and, if_false]
+    have hx := one_shl_toNat (m - l) hk
+    have hp1 : 1 ≤ 2 ^ (m - l).toNat := Nat.one_le_two_pow
+    have hp2 : 2 ^ (m - l).toNat ≤ 2 ^ 63 := Nat.pow_le_pow_right (by omega) (by omega)
+    rw [BitVec.toInt_eq_toNat_cond, BitVec.toNat_sub, hx, ← hd]
+    have : ((2 : Int) ^ (m - l).toNat) = ((2 ^ (m - l).toNat : Nat) : Int) := by simp
+    rw [this]
+    generalize 2 ^ (m - l).toNat = P at *
+    simp only [Nat.reducePow, show (1 : BitVec 64).toNat = 1 from rfl] at *
+    split <;> omega
+  · simp only [specMax, fieldMax, fieldWidth, true_and]
+    by_cases h63 : m - l = 63
+    · have : (m - l).toNat = 63 := by rw [h63]; rfl
+      rw [if_pos h63, if_pos (by omega)]
+      decide
+    · have hne : (m - l).toNat ≠ 63 := by
+        intro h; apply h63; apply BitVec.eq_of_toNat_eq; rw [h]; rfl
+      rw [if_neg h63, if_neg (by omega)]
+      have hk1 : (m - l + 1).toNat = (m - l).toNat + 1 := by
+        rw [BitVec.toNat_add]; simp only [Nat.reducePow, show (1 : BitVec 64).toNat = 1 from rfl]; omega
+      have hx := one_shl_toNat (m - l + 1) (by omega)
+      have hp1 : 1 ≤ 2 ^ (m - l + 1).toNat := Nat.one_le_two_pow
+      have hp2 : 2 ^ (m - l + 1).toNat ≤ 2 ^ 63 := Nat.pow_le_pow_right (by omega) (by omega)
+      rw [BitVec.toInt_eq_toNat_cond, BitVec.toNat_sub, hx, ← hd, ← hk1]
+      have : ((2 : Int) ^ (m - l + 1).toNat) = ((2 ^ (m - l + 1).toNat : Nat) : Int) := by simp
+      rw [this]
+      generalize 2 ^ (m - l + 1).toNat = P at *
+      simp only [Nat.reducePow, show (1 : BitVec 64).toNat = 1 from rfl] at *
+      split <;> omega
+
+/-! ## Normalisation of raw `LSB`/`MSB`/`Bit` numbers -/
+
+/-- normalised bit position: little-endian numbering is kept, big-endian numbering
+(bit 0 = most significant) is mirrored: `8·len - 1 - raw` -/
+def normB (n : Nat) (e : Endianness) (raw : BitVec 64) : BitVec 64 :=
+  match e with
+  | .le => raw
+  | .be => BitVec.ofNat 64 (8 * n - 1) - raw
+
+/-- **Well-formedness** of a bit-field description for an `n`-byte register: supported
+length, both raw positions inside the register, and the normalised pair ordered
+`l ≤ m` (for the single-`Bit` form `l = m`). -/
+def WF (n : Nat) (e : Endianness) (bm : BitMask) : Prop :=
+  IntLen n ∧ bm.rawLsb.toNat < 8 * n ∧ bm.rawMsb.toNat < 8 * n ∧
+    normB n e bm.rawLsb ≤ normB n e bm.rawMsb
+
+instance (n : Nat) (e : Endianness) (bm : BitMask) : Decidable (WF n e bm) := by
+  unfold WF; exact inferInstance
+
+theorem lenUsize_nat (n : Nat) (h : n < 2 ^ 63) : lenUsize (n : Int) = BitVec.ofNat 64 n := by
+  unfold lenUsize
+  rw [C01.asUsize_of_nonneg _ (by omega) (by omega)]
+  simp
+
+theorem normB_toNat (n : Nat) (hn : IntLen n) (e : Endianness) (raw : BitVec 64)
+    (hr : raw.toNat < 8 * n) :
+    (normB n e raw).toNat = (match e with | .le => raw.toNat | .be => 8 * n - 1 - raw.toNat) := by
+  cases e
+  · rfl
+  · simp only [normB]
+    rw [BitVec.toNat_sub, BitVec.toNat_ofNat]
+    rcases hn with rfl | rfl | rfl | rfl <;> simp only [Nat.reducePow, Nat.reduceMul, Nat.reduceSub, Nat.reduceMod] <;> omega
+
+theorem normB_lt_64 (n : Nat) (hn : IntLen n) (e : Endianness) (raw : BitVec 64)
+    (hr : raw.toNat < 8 * n) : normB n e raw < 64 := by
+  rw [BitVec.lt_def, normB_toNat n hn e raw hr]
+  cases e <;> rcases hn with rfl | rfl | rfl | rfl <;> simp only [] <;>
+    (show _ < 64; omega)
+
+theorem mul8U_lit (p : Profile) (k : BitVec 64) (h : (k <<< 3) >>> 3 = k) :
+    mul8U p k = .ok (k <<< 3) := by
+  unfold mul8U; rw [if_pos h]
+
+theorem normalise_lit (p : Profile) (k bits : BitVec 64) (hmul : (k <<< 3) >>> 3 = k)
+    (hbits : k <<< 3 = bits) (e : Endianness) (raw : BitVec 64) (hr : raw < bits) :
+    normalise p raw k e = .ok (match e with | .le => raw | .be => bits - 1 - raw) := by
+  unfold normalise
+  rw [mul8U_lit p _ hmul, hbits]
+  simp only [Res.bind_ok]
+  cases e
+  · rfl
+  · simp only []
+    rw [subU_ok p _ _ (by bv_decide)]
+    simp only [Res.bind_ok]
+    rw [subU_ok p _ _ (by bv_decide)]
+    congr 1
+    bv_decide
+
+theorem normalise_eq (p : Profile) (n : Nat) (hn : IntLen n) (e : Endianness) (raw : BitVec 64)
+    (hr : raw.toNat < 8 * n) :
+    normalise p raw (lenUsize (n : Int)) e = .ok (normB n e raw) := by
+  have hlt : n < 2 ^ 63 := by rcases hn with rfl | rfl | rfl | rfl <;> decide
+  rw [lenUsize_nat n hlt]
+  rcases hn with rfl | rfl | rfl | rfl
+  · rw [normalise_lit p 1#64 8#64 (by decide) (by decide) e raw (by rw [BitVec.lt_def]; simpa using hr)]
+    cases e <;> rfl
+  · rw [normalise_lit p 2#64 16#64 (by decide) (by decide) e raw (by rw [BitVec.lt_def]; simpa using hr)]
+    cases e <;> rfl
+  · rw [normalise_lit p 4#64 32#64 (by decide) (by decide) e raw (by rw [BitVec.lt_def]; simpa using hr)]
+    cases e <;> rfl
+  · rw [normalise_lit p 8#64 64#64 (by decide) (by decide) e raw (by rw [BitVec.lt_def]; simpa using hr)]
+    cases e <;> rfl
+
+/-! ## The seven `BitMask` functions under `WF`: no panic, closed forms -/
+
+section
+variable (p : Profile) (n : Nat) (e : Endianness) (bm : BitMask) (wf : WF n e bm)
+include wf
+
+theorem wf_le : normB n e bm.rawLsb ≤ normB n e bm.rawMsb := wf.2.2.2
+theorem wf_lt : normB n e bm.rawMsb < 64 := normB_lt_64 n wf.1 e _ wf.2.2.1
+
+theorem lsb_eq : bm.lsb p (lenUsize (n : Int)) e = .ok (normB n e bm.rawLsb) :=
+  normalise_eq p n wf.1 e _ wf.2.1
+
+theorem msb_eq : bm.msb p (lenUsize (n : Int)) e = .ok (normB n e bm.rawMsb) :=
+  normalise_eq p n wf.1 e _ wf.2.2.1
+
+theorem min_eq (s : Sign) : bm.min p (lenUsize (n : Int)) e s =
+    .ok (specMin s (normB n e bm.rawLsb) (normB n e bm.rawMsb)) := by
+  simp only [BitMask.min, lsb_eq p n e bm wf, msb_eq p n e bm wf, Res.bind_ok,
+    minCore_eq p _ _ s (wf_le n e bm wf) (wf_lt n e bm wf)]
+
+theorem max_eq (s : Sign) : bm.max p (lenUsize (n : Int)) e s =
+    .ok (specMax s (normB n e bm.rawLsb) (normB n e bm.rawMsb)) := by
+  simp only [BitMask.max, lsb_eq p n e bm wf, msb_eq p n e bm wf, Res.bind_ok,
+    maxCore_eq p _ _ s (wf_le n e bm wf) (wf_lt n e bm wf)]
+
+theorem mask_eq : bm.mask p (lenUsize (n : Int)) e =
+    .ok (fieldMask (normB n e bm.rawLsb) (normB n e bm.rawMsb)) := by
+  simp only [BitMask.mask, lsb_eq p n e bm wf, msb_eq p n e bm wf, Res.bind_ok,
+    maskCore_eq p _ _ (wf_le n e bm wf) (wf_lt n e bm wf)]
+
+theorem applyMask_eq (s : Sign) (w : BitVec 64) : bm.applyMask p w (lenUsize (n : Int)) e s =
+    .ok (specExtract s (normB n e bm.rawLsb) (normB n e bm.rawMsb) w) := by
+  simp only [BitMask.applyMask, mask_eq p n e bm wf, lsb_eq p n e bm wf, msb_eq p n e bm wf,
+    Res.bind_ok, applyCore_eq p _ _ w s (wf_le n e bm wf) (wf_lt n e bm wf)]
+
+theorem maskedValue_eq (s : Sign) (old v : BitVec 64) :
+    bm.maskedValue p old v (lenUsize (n : Int)) e s =
+      if (specMax s (normB n e bm.rawLsb) (normB n e bm.rawMsb)).slt v = true ∨
+         v.slt (specMin s (normB n e bm.rawLsb) (normB n e bm.rawMsb)) = true
+      then .err .invalidData
+      else .ok (specMerge (normB n e bm.rawLsb) (normB n e bm.rawMsb) old v) := by
+  have hl : normB n e bm.rawLsb < 64 := by
+    have h1 := wf_le n e bm wf; have h2 := wf_lt n e bm wf
+    bv_decide
+  simp only [BitMask.maskedValue, max_eq p n e bm wf, min_eq p n e bm wf, mask_eq p n e bm wf,
+    lsb_eq p n e bm wf, Res.bind_ok]
+  by_cases h1 : (specMax s (normB n e bm.rawLsb) (normB n e bm.rawMsb)).slt v = true
+  · simp [h1]
+  · by_cases h2 : v.slt (specMin s (normB n e bm.rawLsb) (normB n e bm.rawMsb)) = true
+    · simp [h1, h2]
+    · simp only [h1, h2, Bool.false_eq_true, if_false, Res.pure_eq, Res.bind_ok, or_self,
+        shlW_ok p v _ hl]
+      rfl
+
+end
+
 end CamVerif.Proofs.C02
